@@ -55,6 +55,7 @@ int c19_set_write_schedule(int n, const int *s) { int i; wr_n = n > 16 ? 16 : n;
 int c19_clear_schedules(void) { rd_n = wr_n = rd_i = wr_i = 0; return 1; }
 int c19_fail_next_accept(int err) { acc_fail_errno = err; return 1; }
 int c19_close_eintr_once(void) { close_eintr_once = 1; return 1; }
+int c19_close_eintr_clear(void) { close_eintr_once = 0; return 1; }   /* the injection belongs to one close operation only */
 int c19_injected(int which) { return which ? injected_writes : injected_reads; }
 
 int c19_init(void)
